@@ -219,6 +219,7 @@ func c02RunHistTimed(c *lib.Ctx, kind string, text []byte, ops string, plan c02P
 	}
 	c02Leave()
 	c.Ev.Count("histories_rerun_alone", 1)
+	fmt.Fprintf(os.Stderr, "C02 harness: a history did not finish within %v, re-running it alone: %s\n", c02HistFirstPass, job.describe())
 	res, verdict, detail := c02RunAlone(c, job)
 	if verdict == "done" {
 		return res.Trace
